@@ -889,6 +889,7 @@ func propC12() *Prop {
 			js = append(js, threadJob(lbJob("C12/pair[Stop || probe in flight to a hung backend]", "VerifC19Stop", 3, 1, 0), 2))
 			js = append(js, threadJob(lbJob("C12/Stop; late tick; Stop", "VerifC19Stop", 2, 1, 0), 1))
 			js = append(js, threadJob(job("C12/pair[breaker Execute x2 at the open->half-open boundary]", "circuitbreaker", "VerifC07Concurrent", 2), 2))
+			js = append(js, threadJob(job("C12/pair[breaker Execute || Execute, closed with an expired counting window (the reset path)]", "circuitbreaker", "VerifC07ConcurrentFailuresAfterExpiredWindow"), 2))
 			return js
 		},
 		Assumptions: append([]string{"thread mode: every simulated goroutine yields before each mutex acquisition, each sync/atomic and sync.Map operation, WaitGroup operation, context cancel/Done, go statement and thread exit; the scheduler's choice is a decision of the exploration, bounded by a pre-emption budget; sequential consistency between yield points", "built-in assertions on every schedule: data race = two accesses to one memory cell, at least one a write, not both atomic, unordered by happens-before (vector clocks over mutex release/acquire, atomics, WaitGroup, fork/join, channel close); deadlock = unfinished threads, none enabled; WaitGroup misuse = Add from zero while a Wait is in progress; unrecovered panic", "race counterexamples are replayed natively as the same two operations under `go test -race` (real goroutines; the race detector's happens-before analysis does not need the exact schedule)"}, commonAssumptions...),
